@@ -114,8 +114,8 @@ def cli_cases(res, drv, tier):
     for n in ([4096, 65536, 236883968, 10000000, 0] if tier == "quick" else common.CLI_NUMBERS + [236883968]):
         for sp in common.spellings(n)[: (2 if tier == "quick" else 4)]:
             cases.append(("address", n, sp))
-    for n in (48, 64, 100, 256):
-        for sp in common.spellings(n)[:2]:
+    for n in (48, 64, 100, 256, 75, 91, 107, 0xAB, 0x4D, 0x4F):     # also sizes whose hexadecimal spelling ends in a letter a unit suffix could claim (C12-s)
+        for sp in common.spellings(n)[:3]:
             cases.append(("size", n, sp))
     # names are option *values*: whatever character they begin with (argparse has opinions about some)
     for nm in ("@home_sensor", "+plus", "%x", "~tilde", "=eq", ":colon", "#hash"):
